@@ -13,7 +13,7 @@
 //                                   -> callback sequence: S:<hex unescaped> D:<hex unescaped> !:<pos> .   (+ OOB marker)
 //   depinfo   <buf>                 DependencyInfoParser::parse -> V:<hex> I:<hex> M:<hex> O:<hex> !:<pos>  (+ OOB marker)
 //   shq       <string>              basic::shellEscaped -> hex of the result
-//   buildfile <yaml>                BuildSystem::loadDescription of an in-memory file -> loaded|failed errs=<n>
+//   buildfile <yaml>                BuildSystem::loadDescription of an in-memory file -> loaded|failed errs=<n> first=<hex of the first message>
 //
 // Every input byte string is handed to the parser in an EXACT-SIZE heap buffer (malloc(n), no terminator; n = 0 gives a
 // valid 1-byte allocation used with length 0), so that the ASan+UBSan variant of this driver reports every read
@@ -255,10 +255,10 @@ public:
 };
 class LoadDelegate : public buildsystem::BuildSystemDelegate {
 public:
-  unsigned numErrors = 0;
+  unsigned numErrors = 0; std::string firstError;
   LoadDelegate() : BuildSystemDelegate("basic", 0) {}
   void setFileContentsBeingParsed(StringRef) override {}
-  void error(StringRef, const Token&, const Twine& message) override { ++numErrors; (void)message.str(); }
+  void error(StringRef, const Token&, const Twine& message) override { std::string m = message.str(); if (numErrors++ == 0) firstError = m; }
   std::unique_ptr<buildsystem::Tool> lookupTool(StringRef) override { return nullptr; }
   std::unique_ptr<basic::ExecutionQueue> createExecutionQueue() override { return nullptr; }
   void hadCommandFailure() override {}
@@ -283,7 +283,7 @@ static std::string runBuildFile(const std::string& yaml) {
   fs->contents = yaml;
   buildsystem::BuildSystem system(delegate, std::move(fs));
   bool ok = system.loadDescription("/wd/build.llbuild");
-  return std::string(ok ? "loaded" : "failed") + " errs=" + std::to_string(delegate.numErrors);
+  return std::string(ok ? "loaded" : "failed") + " errs=" + std::to_string(delegate.numErrors) + " first=" + hexOf(delegate.firstError);
 }
 
 // ---------------------------------------------------------------- dispatch
